@@ -188,7 +188,7 @@ Qed.
 Lemma process_done m p m' out r :
   process m p = (m', Done out (Some r)) ->
   exists hs1 msg keys0 m2,
-    m_failed m = false /\
+    m_failed m = false /\ (r_initiator (m_res m) && (hs_msgIdx (m_hs m) =? 0)) = false /\
     read_message (m_hs m) (pk_body p) = (hs1, ROk msg keys0) /\
     process_payload (set_hs m hs1) msg (fst (peer_flags (set_hs m hs1))) (snd (peer_flags (set_hs m hs1))) = (m2, true) /\
     ((exists cs1 cs2, keys0 = Some (cs1, cs2) /\ out = None /\ m_payload_set m2 = true /\ m_remote_cert_set m2 = true /\
@@ -199,11 +199,11 @@ Lemma process_done m p m' out r :
 Proof.
   unfold process.
   destruct (m_failed m); [discriminate|]. destruct (pk_short p); [discriminate|]. destruct (negb _); [discriminate|].
-  destruct (m_initiator m && _); [discriminate|].
+  unfold m_initiator. destruct (r_initiator (m_res m) && _) eqn:Hini; [discriminate|].
   destruct (read_message (m_hs m) (pk_body p)) as [hs1 [|msg keys0]]; [destruct (term_eqb _ _); discriminate|].
   destruct (peer_flags (set_hs m hs1)) as [a b] eqn:Hpf. cbn [fst snd].
   destruct (process_payload (set_hs m hs1) msg a b) as [m2 [|]] eqn:Hpp; [|discriminate].
-  intros Hrun. exists hs1, msg, keys0, m2. split; [reflexivity|]. split; [reflexivity|]. split; [rewrite Hpf; exact Hpp|].
+  intros Hrun. exists hs1, msg, keys0, m2. split; [reflexivity|]. split; [reflexivity|]. split; [reflexivity|]. split; [rewrite Hpf; exact Hpp|].
   destruct keys0 as [[cs1 cs2]|].
   - left. destruct (require_complete m2) as [m3 [|]] eqn:Hrc; [|discriminate].
     apply require_complete_ok in Hrc as (-> & Hps & Hrcs).
